@@ -85,6 +85,12 @@ def record_events(pu, rng, n):
             e = {"k": "1d", "v": v, "lo": lo, "hi": hi, "t": t}
             for k, val in o.items():
                 e[k] = bool(val) if (k.endswith("F") and is_flag(val, bool(val))) else val if isinstance(val, bool) else _lat(val)
+            for k in ("chkF", "tolF"):
+                if not isinstance(e[k], bool):          # not a flag at all: keep TLC's types intact and let the value comparison fail
+                    e[k], e["chkV"] = False, -(2 ** 30) - 7
+            for k in ("chkV", "tolV", "con"):
+                if isinstance(e[k], bool):
+                    e[k] = -(2 ** 30) - 7
         else:
             xlo, xhi = sorted((r(), r()))
             ylo, yhi = sorted((r(), r()))
@@ -194,19 +200,25 @@ def replay(rec):
             o = observe1(pu, f(v), f(lo), f(hi), a * t)
             cl = lo if v < lo else hi if v > hi else v
             want = {"chkV": f(cl), "chkF": not lo <= v <= hi, "tolV": f(cl), "tolF": v < lo - t or v > hi + t, "con": f(cl)}
-            bad = {k: (want[k], o[k]) for k in want if want[k] != o[k]}
+            bad = {k: (want[k], o[k]) for k in want
+                   if not (is_flag(o[k], want[k]) if isinstance(want[k], bool) else (o[k] == want[k] and not isinstance(o[k], bool)))}
             return (not bad), {"mismatch": bad}
         x, y, xlo, ylo, xhi, yhi, t = c["in"]
         got = pu.point_in_bounds([f(x), f(y)], [[f(xlo), f(ylo)], [f(xhi), f(yhi)]], a * t)
         want = not (x < xlo - t or x > xhi + t) and not (y < ylo - t or y > yhi + t)
-        return got is want, {"want": want, "got": got}
+        ok = is_flag(got, want)
+        got0 = None
+        if t == 0 and a >= 2.0 ** -10 and abs(b) < 2.0 ** 20:            # the default-tolerance call of the run
+            got0 = pu.point_in_bounds([f(x), f(y)], [[f(xlo), f(ylo)], [f(xhi), f(yhi)]])
+            ok = ok and is_flag(got0, want)
+        return ok, {"want": want, "got": got, "got_default_tolerance": got0}
     e = c["event"]
     cf = float if e.get("asfloat") else (lambda z: z)
     if e["k"] == "1d":
         o = observe1(pu, cf(e["v"]), cf(e["lo"]), cf(e["hi"]), cf(e["t"]))
         e2 = dict(e)
         for k, val in o.items():
-            e2[k] = val if isinstance(val, bool) else _lat(val)
+            e2[k] = bool(val) if (k.endswith("F") and is_flag(val, bool(val))) else val if isinstance(val, bool) else _lat(val)
     else:
         got = pu.point_in_bounds([cf(e["x"]), cf(e["y"])], [[cf(e["xlo"]), cf(e["ylo"])], [cf(e["xhi"]), cf(e["yhi"])]], cf(e["t"]))
         e2 = dict(e, pib=bool(got))
